@@ -21,13 +21,18 @@ from lib import Infra, q
 
 MODULE = "ProbLogProofs.Properties.C17"
 THEOREMS = [
-    "ProbLogProofs.C17.C17_roundtrip_partial",
     "ProbLogProofs.C17.C17_roundtrip_refuted_or_operand",
     "ProbLogProofs.C17.C17_roundtrip_refuted_prefix_operand",
     "ProbLogProofs.C17.C17_roundtrip_refuted_left_nested_and",
-    "ProbLogProofs.C17.C17_fold_total_partial",
+    "ProbLogProofs.C17.C17_roundtrip_refuted_symbol_glue",
+    "ProbLogProofs.C17.C17_roundtrip_refuted_negative_number",
+    "ProbLogProofs.C17.C17_roundtrip_refuted_mixed_associativity",
+    "ProbLogProofs.C17.C17_roundtrip_refuted_high_priority_argument",
+    "ProbLogProofs.C17.C17_roundtrip_refuted_nested_clause",
+    "ProbLogProofs.C17.C17_roundtrip_refuted_nested_not",
     "ProbLogProofs.C17.C17_fold_total_refuted_sharp",
     "ProbLogProofs.C17.C17_fold_total_refuted_empty_head",
+    "ProbLogProofs.C17.C17_fold_total_refuted_semicolon_head",
 ]
 
 MANIFEST = {
@@ -98,18 +103,29 @@ def same_outcome(model, real):
         return "skip"
     if real == "recursion":
         return "skip"
+    TAG = " [caught IndexError]"
+    if TAG in model:
+        # an IndexError of a crash site inside brackets, swallowed by collapse's `except IndexError`
+        model = model.replace(TAG, "")
+        if model != real:
+            return "fixed" if not (real.startswith("internal") or real.startswith("crash")) else "diff"
     if model.startswith("ok ") and real.startswith("ok "):
         return "same" if U.canon_floats(model) == U.canon_floats(real) else "diff"
     if model.startswith("grounding") and real == "grounding":
         return "same"
     if model.startswith("internal ") or model.startswith("crash "):
+        model = model.split(":")[0]  # the model names the raise site after the exception type
         if real == model:
             return "same"
-        # the model predicts a crash at a site for which a fix is proposed: an implementation that raises a
-        # ProbLog error instead is better than the model, not a broken correspondence
-        if real.startswith("parse ") or real == "grounding":
+        # the model predicts a crash at a site for which a fix is proposed (repo_patches/C17_*): an implementation
+        # that does not crash there is better than the model, not a broken correspondence
+        if real.startswith("parse ") or real == "grounding" or real.startswith("ok "):
             return "fixed"
         return "diff"
+    if real == 'parse "Empty expression"':
+        # this message exists only with repo_patches/C17_empty_parens applied: `()` is rejected as soon as it is
+        # folded instead of becoming a None operand (the model follows the unpatched source and keeps None)
+        return "fixed"
     return "same" if model == real else "diff"
 
 
@@ -182,12 +198,8 @@ class Shapes(object):
         elif ty is Not:
             c = t.child
             if type(c) in (And, Or):
-                if t.functor != "not":
-                    self.add("not-of-and-or")
                 self.top(c, 1200)
             else:
-                if t.functor != "not" and self.starts_bracket(c):
-                    self.add("prefix-operator-operand")
                 if self.first_char(c) in SYMCH and type(c) is not Not:
                     self.add("prefix-operator-operand")  # `\+ -1 = X`: "Ambiguous token role"
                 self.top(c, 900)
@@ -239,8 +251,9 @@ class Shapes(object):
             self.loop(t.op2, 1100)
             return
         if ty is Not:
-            self.add("not-inside-term")
-            self.loop(t.child, 900)
+            if t.functor == "not":
+                self.add("not-inside-term")  # printed `not(x)`: the compound term not/1
+            self.loop(t.child, 1200)
             return
         if ty in (Clause, AnnotatedDisjunction):
             self.add("nested-clause")
@@ -509,8 +522,8 @@ def run(ctx):
         return replay(ctx, drv, shapes, specials)
 
     # =============================================================== (i)+(ii): ASTs
-    n_safe = ctx.budget(2200, 60000)
-    n_unsafe = ctx.budget(500, 15000)
+    n_safe = ctx.budget(9000, 120000)
+    n_unsafe = ctx.budget(1500, 30000)
     rng = ctx.sub_rng("ast")
     asts = []
     for i in range(n_safe + n_unsafe):
@@ -587,6 +600,27 @@ def run(ctx):
                 first_lex_diff = first_lex_diff or (ln, ml[:200], rl[:200])
         elif ml != rl:
             first_lex_diff = first_lex_diff or (ln, ml[:300], rl[:300])
+    # every listed finding pins a witness (source text): replay it first-hand, report a finding that stopped failing
+    for f in ctx.known.get("findings", []):
+        if f.get("property") != "C17" or f.get("match", {}).get("kind") != "roundtrip":
+            continue
+        try:
+            wt = _parser().parseString(f["witness"])[0]
+        except Exception as e:
+            ctx.notes.append("STALE-FINDING %s: witness does not parse any more (%s)" % (f["id"], type(e).__name__))
+            print("STALE-FINDING: property=C17 %s (witness does not parse)" % f["id"])
+            continue
+        kind, detail, text, _ = real_roundtrip(wt)
+        found = shapes.run(wt)
+        ctx.case(f["witness"])
+        ctx.count("ast:finding-witness")
+        if kind == "ok":
+            ctx.notes.append("STALE-FINDING %s: witness `%s` round-trips now" % (f["id"], f["witness"]))
+            print("STALE-FINDING: property=C17 %s (witness round-trips now)" % f["id"])
+        else:
+            sig = found[0] if found else "none"
+            ctx.fail("round trip fails (%s): `%s` printed `%s` %s [shape: %s]" % (kind, f["witness"], text, detail, sig),
+                     {"kind": "roundtrip", "ast": U.dump(wt), "text": text}, {"kind": "roundtrip", "shape": sig})
     ctx.sample({"ast": keep[0][2][:200], "printed": str(keep[0][0])})
     ctx.sample({"ast": keep[1][2][:200], "printed": str(keep[1][0])})
     ctx.extra["roundtrip_ok"] = n_rt_ok
@@ -615,7 +649,7 @@ def run(ctx):
     if len(corpus) < 200:
         raise Infra("corpus too small: %d statements" % len(corpus))
     rng = ctx.sub_rng("mutants")
-    n_mut = ctx.budget(5000, 150000)
+    n_mut = ctx.budget(20000, 400000)
     texts = [join_tokens(toks) for _, toks in corpus]
     texts += [str(t) for t, _, _ in keep[:600]]
     for _ in range(n_mut):
@@ -664,7 +698,7 @@ def run(ctx):
     from problog.program import PrologString
     from problog.errors import ProbLogError
     rng = ctx.sub_rng("fuzz")
-    n_fuzz = ctx.budget(6000, 200000)
+    n_fuzz = ctx.budget(20000, 500000)
     escapes = dict(("%s|%s" % k, v) for k, v in crash_sites.items())
     by_file = {}
     for f, toks in corpus:
